@@ -19,8 +19,9 @@ Trusted mapping of primitives (the same conventions as the hand-written model):
   x.read(into) / x.take(n).read(into)           ->  rd S x into_len / rd S x (N.min n into_len)
        (the value is the byte string got; as a number it is its length)
   x.read_u32::<LittleEndian>()                  ->  Blocks.rexact S x 4, le_val
-  ArchiveFileBlock::from(x)                     ->  Blocks.parse_block … S x  (the one trusted link to
-                                                    the block parser; frozen by EV_block_from_shape)
+  ArchiveFileBlock::from(x)                     ->  Src3b.ArchiveFileBlock_from … S x: the TRANSLATED block parser
+                                                    (tools/src2v3_block.py; = Blocks.parse_block by
+                                                    SrcTie3Block.block_from_src — no longer a trusted link)
   a - b (usize/u64)                             ->  Crash site_sub when a < b
   v[i]                                          ->  Crash site_index when out of range
   a.checked_sub(b).ok_or(E)? / a.checked_add(b).ok_or_else(E)?   ->  guards (u64: 2^64)
@@ -872,9 +873,10 @@ Definition hm_keys (m : footer) : list bytes := hm_keys_aux m [].
 Section ReaderSrc.
   Variable S : Stream.
   Variables FNMAX T_START T_CONTENT T_EOA T_EOF : N.
-  (* ArchiveFileBlock::from: the block parser of Blocks.v (its own source text is frozen by
-     SrcTie2Events.EV_block_from_shape) *)
-  Notation ArchiveFileBlock_from := (parse_block FNMAX T_START T_CONTENT T_EOA T_EOF S).
+  (* ArchiveFileBlock::from: the TRANSLATED block parser of gen/Src3b.v (tools/src2v3_block.py; equal to
+     Blocks.parse_block by SrcTie3Block.block_from_src).  636 labels the arm "read_exact(1) holds another
+     number of bytes", which is never taken (SrcTie3Block.block_from_site_irrelevant) *)
+  Notation ArchiveFileBlock_from := (Src3b.ArchiveFileBlock_from S FNMAX T_START T_CONTENT T_EOA T_EOF 636).
   (* labels of the panic sites (a convention of the model, not a fact of the source) *)
   Variables site_index site_sub : N.
   (* bincode::options().with_limit(limit).with_fixint_encoding().deserialize_from(&mut src.take(n)) *)
@@ -1048,6 +1050,7 @@ def generate():
     out = []
     out.append("(* GENERATED by tools/src2v3_reader.py from %s — do not edit. *)" % REPO)
     out.append("From MLA Require Import Base Stream Blocks.")
+    out.append("From MLAGen Require Src3b.")
     out.append("Open Scope N_scope.")
     lib = strip_tests(read_file("mla/src/lib.rs"))
     raw = strip_tests(read_file("mla/src/layers/raw.rs"))
